@@ -210,7 +210,7 @@ Next ==
          E == res.st
          \* out-of-scope argument combinations are not judged; whether a detached reaction object exists is
          \* known to the driver only
-         judged == res.raises # "skip" /\ ~(op.a = "DetachedSetBounds" /\ ev.raises = "skip")
+         judged == res.raises # "skip" /\ ~(op.a \in {"DetachedSetBounds", "ReAddDetached"} /\ ev.raises = "skip")
          \* an analysis may legitimately raise (infeasible model ...): its outcome is not predicted, the model
          \* must be unchanged either way
          unexpectedRaise == judged /\ op.a \notin {"Analyze", "Helper"} /\ ev.raises # res.raises
@@ -230,7 +230,7 @@ Next ==
                ctx |-> [s \in Slots |-> IF ev.obs[s].present /\ ev.obs[s].ctx = Len(E.ctx[s]) THEN E.ctx[s]
                                         ELSE IF ev.obs[s].present /\ ev.obs[s].ctx < Len(E.ctx[s])
                                              THEN SubSeq(E.ctx[s], 1, ev.obs[s].ctx) ELSE E.ctx[s]],
-               helper |-> E.helper, sw |-> E.sw, taint |-> E.taint, doc |-> E.doc]
+               helper |-> E.helper, sw |-> E.sw, taint |-> E.taint, doc |-> E.doc, det |-> E.det]
      IN
      /\ (diffs \cup newBad # {}) =>
            PrintT(ToJson([verdict |-> "MISMATCH", tid |-> Traces[tid].tid, l |-> l + 1, action |-> op.a, op |-> op,
